@@ -171,15 +171,20 @@ class VTable:
         self.t = {}
         self.back = []
 
+    @staticmethod
+    def key(v):
+        # scalars are keyed by (type, value) (True / 1 / 1.0 stay distinct); anything else by its JSON text
+        return (type(v).__name__, v) if isinstance(v, (bool, int, float, str)) else json.dumps(v)
+
     def idx(self, v):
-        k = json.dumps(v)
+        k = self.key(v)
         if k not in self.t:
             self.t[k] = len(self.back)
             self.back.append(v)
         return self.t[k]
 
     def get(self, v):
-        return self.t.get(json.dumps(v), -1)
+        return self.t.get(self.key(v), -1)
 
 
 def m_rows(rows, vt):
@@ -284,6 +289,8 @@ def run(ctx):
                 "isolated processes.  trivial = a stream in one page with a single row; distinct = distinct case dicts")
     try:
         stage_schema(ctx, pq, w)
+        if not FX:
+            stage_fixtures(ctx, pq, w)
         stage_direct(ctx, pq, w)
         stage_files(ctx, pq, w)
     finally:
@@ -376,6 +383,115 @@ def stage_schema(ctx, pq, w):
                          "a non-standard shape (%s) is accepted as one-level %s" % (what, kind.upper()))
             elif accepted:
                 ctx.count("schema.accepted_nonstandard", what)
+
+
+# ---- D: nested files written by others (repository test data) --------------------------------
+
+FIXTURES = ["map_array.parq", "map-test.snappy.parquet", "test-map-last-row-split.parquet", "nested.parq",
+            "nested1.parquet", "datapage_v2.snappy.parquet", "repeated_no_annotation.parquet"]
+
+
+def stage_fixtures(ctx, pq, w):
+    """Third-party nested files: the page streams (levels, dereferenced values) as fastparquet's own page reader
+    decodes them -> proved spec decoder assemble_spec (what the rows ARE) and impl model run_v1 (what the loop does)
+    against ParquetFile.to_pandas().  Only v1 chunks of the three-level LIST / MAP shapes at top level."""
+    for fn in FIXTURES:
+        if ctx.quick() and fn == "map-test.snappy.parquet":
+            continue        # 2 x 190 000 entries; the quick tier keeps the sibling file whose last row is split across pages
+        path = os.path.join(C.REPO, "test-data", fn)
+        if not os.path.exists(path):
+            ctx.count("fixture.missing", fn)
+            continue
+        res = w.call({"op": "fixture", "path": path})
+        case0 = {"stage": "fixture", "file": fn}
+        if "ok" not in res:
+            ctx.case(case0)
+            ctx.fail({"component": "fixture", "file": fn}, case0, "reading the fixture failed: %r" % (_trim(res),))
+            continue
+        starts = [0]
+        for n in res["row_groups"]:
+            starts.append(starts[-1] + n)
+        leaves = {}
+        for rec in res["ok"]:
+            pt = rec["path_types"]
+            if rec["skipped"] or len(pt) != 3 or pt[1] != 2 or pt[0] == 2 or pt[2] == 2 or rec["max_rep"] != 1:
+                ctx.count("fixture.leaf_skipped", "%s:%s (%s)" % (fn, ".".join(rec["path"]), rec["skipped"] or "not a top-level three-level LIST/MAP leaf"))
+                continue
+            ro, eo = pt[0] == 1, pt[2] == 1
+            vt = VTable()
+            mp, ents, vals = [], [], []
+            for pg in rec["pages"]:
+                rep = pg["rep"]
+                de = pg["def"] if pg["def"] is not None else [rec["max_def"]] * len(rep)
+                mp.append(m_page(rep, de, pg["vals"], vt))
+                ents += [[r, d] for r, d in zip(rep, de)]
+                vals += [vt.idx(v) for v in pg["vals"]]
+            n = rec["num_rows"]
+            spec = pq.call("assemble_spec", ro, eo, ents, vals)
+            model = m_result(pq.call("run_v1", ro, eo, n, mp))
+            guard = [bool(int(x)) for x in pq.call("split_guard", ro, eo, mp)]
+            case = {**case0, "rg": rec["rg"], "leaf": ".".join(rec["path"]), "pages": len(mp), "entries": len(ents), "rows": n}
+            ctx.case(case)
+            ctx.count("fixture.leaf", "%s:%s pages=%d good_split=%s" % (fn, ".".join(rec["path"]), len(mp), guard))
+            if spec == []:
+                ctx.fail({"component": "fixture", "file": fn, "what": "stream rejected by the spec decoder"}, case,
+                         "the decoded level/value stream is not a valid one-level stream for this shape")
+                continue
+            srows = [[None if e is None else vt.back[e] for e in r] if r is not None else None for r in m_rows_back(spec[0])]
+            mrows = None
+            if model[0] == "ok":
+                mrows = [[None if e is None else vt.back[e] for e in r] if r is not None else None for r in m_rows_back(model[1])]
+            leaves[(rec["rg"], rec["name"], rec["leaf"])] = (rec["kind"], srows, mrows, case, guard)
+        # compare per column and row group
+        done = set()
+        for (gi, name, leaf), (kind, srows, mrows, case, guard) in sorted(leaves.items()):
+            if (gi, name) in done:
+                continue
+            cells = res["cells"].get(name)
+            got = cells[starts[gi]:starts[gi + 1]] if isinstance(cells, list) else cells
+            if kind == "list":
+                want, pred = srows, mrows
+            else:
+                k, v = leaves.get((gi, name, "key")), leaves.get((gi, name, "value"))
+                if k is None or v is None:
+                    continue
+
+                def zipd(ks, vs):
+                    if ks is None or vs is None:
+                        return None
+                    out = []
+                    for a, b in zip(ks, vs):
+                        if a is None:
+                            out.append(None)
+                        else:
+                            d = {}
+                            for x, y in zip(a, b):          # Python dict semantics of dict(zip(k, v))
+                                d[json.dumps(x)] = [x, y]
+                            out.append({"dict": list(d.values())})
+                    return out
+                want, pred = zipd(k[1], v[1]), zipd(k[2], v[2])
+                guard = [k[4][0] and v[4][0], k[4][1] and v[4][1]]
+            done.add((gi, name))
+            ccase = {**case, "column": name}
+            ccase.pop("leaf", None)
+            if pred is not None:
+                ctx.correspondence("run_v1 (+ dict(zip)) on the decoded page streams of a third-party file ~ to_pandas()", ccase,
+                                   sha_cells(pred), sha_cells(got))
+            if guard == [True, True]:
+                ctx.correspondence("model on a good split = assemble_spec of the stream (instance of C15_pages_partial, third-party file)",
+                                   ccase, sha_cells(pred), sha_cells(want))
+            if got != want:
+                bad = [i for i in range(min(len(got), len(want))) if got[i] != want[i]][:3] if isinstance(got, list) else []
+                ctx.fail({"component": "fixture", "file": fn, "good_split": guard[1]}, {**ccase, "replay": {"kind": "fixture"}},
+                         "to_pandas() differs from record assembly of the stored levels/values at rows %r: got %s, assembly gives %s" % (
+                             bad, json.dumps([got[i] for i in bad])[:400] if bad else _trim(got)[:300],
+                             json.dumps([want[i] for i in bad])[:400]))
+
+
+def sha_cells(cells):
+    """big columns are compared by digest (keeps the evidence small)"""
+    s = json.dumps(cells, sort_keys=False)
+    return cells if len(s) < 2000 else {"sha256": C.sha(s), "rows": len(cells) if isinstance(cells, list) else None}
 
 
 # ---- A: direct calls -----------------------------------------------------------------------
